@@ -370,7 +370,11 @@ func (r *Run) DoCorrupt(d *DiskOp) {
 	if len(ts) > 1 {
 		other = ts[1].ID
 	}
-	damaged := applyCorruption(orig, d.Arg, d.Pos, strings.Repeat("x", d.N), live, other)
+	damaged := orig
+	for i, kind := range strings.Split(d.Arg, "+") {
+		// several damages may be combined (e.g. blank lines, then a junk line)
+		damaged = applyCorruption(damaged, kind, d.Pos+i*7919, strings.Repeat("x", d.N), live, other)
+	}
 	r.W.Count.Inc("fault.log_corrupt." + d.Arg)
 	r.Faults++
 	cmds := r.corruptCommands(r.M)
@@ -409,6 +413,15 @@ func runCorruptGenerated(bin string, seed uint64, thorough bool) *RunReport {
 		kind := kinds[rng.Intn(len(kinds))]
 		if thorough && rng.Chance(1, 40) {
 			kind = "huge_line"
+		}
+		if rng.Chance(1, 4) {
+			// two damages in one log
+			second := []string{"blank_lines", "junk_line", "conflict_markers", "dup_line", "crlf", "unknown_type", "no_final_newline"}[rng.Intn(7)]
+			if rng.Chance(1, 2) {
+				kind = second + "+" + kind
+			} else {
+				kind = kind + "+" + second
+			}
 		}
 		st := Step{Disk: &DiskOp{Kind: "corrupt", Arg: kind, Pos: rng.Intn(1 << 20), N: rng.Intn(16)}}
 		sc.Steps = append(sc.Steps, st)
